@@ -33,6 +33,19 @@ def gen(rng, ctx):
     if not flag and rng.random() < 0.4:
         cd = G.add_blackboxes(rng, cd, rng.randint(1, 2), p_unconnected=0.3)
         kind = "pins"
+        # a net driven by a blackbox output may feed nothing live: the buffer is dead, the pin is not
+        prd = G.cd_preds(cd)
+        suc = G.cd_succs(cd)
+        tp0 = G.cd_types(cd)
+        for x in cd["nodes"]:
+            n = x[0]
+            if x[1] == "buf" and prd[n] and tp0[prd[n][0]] == "bb_output" and rng.random() < 0.5:
+                if all(len(prd[m]) >= 2 for m in suc[n]):
+                    x[2] = False
+                    cd["edges"] = [e for e in cd["edges"] if e[0] != n]
+                    for m in suc[n]:
+                        prd[m] = [q for q in prd[m] if q != n]
+                    kind = "pins+dead_pin_net"
     nodes = [n for n, _, _ in cd["nodes"]]
     tps = G.cd_types(cd)
     drivers = [n for n in nodes if tps[n] != "bb_input"]
@@ -176,5 +189,5 @@ def check(case, ctx):
 
 
 def gates(counters, table, tier):
-    need = ["insertion_order:shuffled", "class:pins", "class:plain", "inputs=True", "inputs=False", "has_dead_logic", "has_unloaded_input", "has_input_loaded_only_by_dead_logic", "has_dead_bb_output"]
+    need = ["insertion_order:shuffled", "class:pins", "class:pins+dead_pin_net", "class:plain", "inputs=True", "inputs=False", "has_dead_logic", "has_unloaded_input", "has_input_loaded_only_by_dead_logic", "has_dead_bb_output"]
     return [f"{k} seen {counters.get(k, 0)} times" for k in need if counters.get(k, 0) < 10]
